@@ -66,6 +66,11 @@ def grpAlone : AstL → Prop
   | .cons (.grp _) t => t = .nil
   | _ => True
 
+/-- the target of a redirection -/
+def WFout : Option (Redir × Ast) → Prop
+  | none => True
+  | some (_, o) => WFparse o
+
 def lastNotRedir (l : AstL) : Prop :=
   match lastArg l with
   | some a => isRedirBin a = false
@@ -91,8 +96,7 @@ def WFS : Stmt → Prop
   | .del v => WFparse v ∧ v.isVar = true
   | .reset v => ∃ n, v = .var n
   | .prt f args out =>
-    -- (no redirection: see `stmt_roundtrip_partial`)
-    WFparseL args ∧ out = none ∧ (f = true → args ≠ .nil) ∧ grpAlone args
+    WFparseL args ∧ (f = true → args ≠ .nil) ∧ grpAlone args ∧ WFout out
   | .expr e => WFparse e
 /-- parse_block keeps no null statement and no block with an empty body in a block body -/
 def WFSL : StmtL → Prop
@@ -1149,6 +1153,231 @@ theorem rt_prt (f : Bool) (args : AstL) (hw : WFparseL args) (hf : f = true → 
     · simp only [Bool.false_eq_true, if_false]; rw [ps_print m outer _ _ rfl]; exact hp
     · simp only [if_true]; rw [ps_printf m outer _ _ rfl]; exact hp
 
+/-! ### print / printf with a redirection -/
+
+/-- a printed operand either is `( mid ) tl` with `mid` balanced, or does not start with a parenthesis -/
+theorem paren_shape (b : Ast) (hw : WFparse b) :
+    (∃ mid tl, opnd b = tLP :: (mid ++ tRP :: tl) ∧ Bal mid) ∨ (∃ t r, opnd b = t :: r ∧ t.k ≠ .LPAREN) := by
+  by_cases ha : b.isAss = true
+  · exact .inl ⟨print b, [], by simp [opnd, ha], balA b hw⟩
+  · have ha' : b.isAss = false := by simpa using ha
+    rw [opnd_nonass b ha']
+    cases b with
+    | int v t =>
+      cases t with
+      | some t => exact .inr ⟨_, _, print_int_some v t, by simp⟩
+      | none =>
+        by_cases hv : v < 0
+        · exact .inl ⟨[tMINUS, natTok v.natAbs], [], by rw [print_int_neg v hv]; rfl,
+            Bal.cons _ _ (by decide) (by decide) (Bal.tok _ (by simp [natTok]) (by simp [natTok]))⟩
+        · exact .inr ⟨_, _, print_int_nonneg v hv, by simp [natTok]⟩
+    | lit k s => simp only [WFparse] at hw; exact .inr ⟨_, _, print_lit k s, (lit_noparen k hw).1⟩
+    | var n => exact .inr ⟨_, _, print_var n, by simp⟩
+    | idx n ix => exact .inr ⟨_, _, print_idx n ix, by simp⟩
+    | call n l => exact .inr ⟨_, _, print_call n l, by simp⟩
+    | grp l => simp only [WFparse] at hw; exact .inl ⟨printLT l, [], by rw [print_grp], balL l hw.1⟩
+    | pos e => exact .inr ⟨_, _, print_pos e, by decide⟩
+    | bin op l r =>
+      simp only [WFparse] at hw
+      exact .inl ⟨opnd l ++ binTok op :: opnd r, [], by rw [print_bin]; simp,
+        Bal.app _ _ (Bal.opnd l (balA l hw.1)) (Bal.cons _ _ (binTok_noparen op).1 (binTok_noparen op).2 (Bal.opnd r (balA r hw.2.1)))⟩
+    | unr op e =>
+      simp only [WFparse] at hw
+      exact .inl ⟨unrTok op :: tLP :: (print e ++ [tRP]), [], by rw [print_unr]; simp,
+        Bal.cons _ _ (unrTok_noparen op).1 (unrTok_noparen op).2 (Bal.paren _ (balA e hw.1))⟩
+    | incpre op e => exact .inr ⟨_, _, print_incpre op e, (incTok_noparen op).1⟩
+    | incpst op e =>
+      simp only [WFparse] at hw
+      exact .inl ⟨print e, [incTok op], by rw [print_incpst], balA e hw.1⟩
+    | cnd c l r =>
+      simp only [WFparse] at hw
+      exact .inl ⟨(tLP :: (print c ++ [tRP])) ++ (tQUEST :: (print l ++ (tCOLON :: print r))), [], by rw [print_cnd]; simp,
+        Bal.app _ _ (Bal.paren _ (balA c hw.1))
+          (Bal.cons _ _ (by decide) (by decide) (Bal.app _ _ (balA l hw.2.1) (Bal.cons _ _ (by decide) (by decide) (balA r hw.2.2))))⟩
+    | ass op l r => simp [Ast.isAss] at ha'
+
+/-- `print (a) > b`: the first parenthesis is closed before the end of what was consumed: `in_parens` is not confirmed -/
+theorem inParens_early (b : Ast) (hw : WFparse b) (X : List Tok) (hX : X ≠ []) (rest : List Tok) :
+    inParens (opnd b ++ (X ++ rest)) rest = false := by
+  have hc : consumed (opnd b ++ (X ++ rest)) rest = opnd b ++ X := by rw [← List.append_assoc]; exact consumed_app _ _
+  simp only [inParens, hc]
+  rcases paren_shape b hw with ⟨mid, tl, e, hb⟩ | ⟨t, r, e, ht⟩
+  · rw [e]
+    simp only [List.cons_append, List.append_assoc, tLP_k, beq_self_eq_true, Bool.true_and]
+    rw [hb 0]
+    cases X with
+    | nil => exact absurd rfl hX
+    | cons x xs => simp [closesAtEnd, tRP_k]
+  · rw [e]; simp [ht]
+
+def opOfRedir : Redir → BinOp
+  | .file => .GT
+  | .apfile => .RS
+  | .pipe => .BOR
+  | .rwpipe => .LOR
+
+theorem redir_sym (rd : Redir) : symTok rd.str = binTok (opOfRedir rd) := by cases rd <;> decide +kernel
+theorem redirOfBin_op (rd : Redir) : redirOfBin (opOfRedir rd) = some rd := by cases rd <;> rfl
+theorem redir_nofold (rd : Redir) : foldable (opOfRedir rd) = false := by cases rd <;> rfl
+theorem redir_notin (rd : Redir) : opOfRedir rd ≠ .IN := by cases rd <;> decide
+
+/-- `b > o ;` is read by parse_expr_withdc as one binary node -/
+theorem pExpr_redir (b o : Ast) (hwb : WFparse b) (hwo : WFparse o) (rd : Redir) (rest : List Tok) :
+    pExpr (opnd b ++ binTok (opOfRedir rd) :: (opnd o ++ tSEMI :: rest))
+      = .ok (.bin (opOfRedir rd) (norm b) (norm o), tSEMI :: rest) := by
+  have h := bin_inner_semi (opOfRedir rd) b o hwb hwo (by simp [redir_nofold]) (fun h => absurd h (redir_notin rd))
+    (rtA b hwb).1 (rtA o hwo).1 ((opnd b ++ binTok (opOfRedir rd) :: (opnd o ++ tSEMI :: rest)).length) rest
+    (by simp; omega) (by simp; omega) (binOKsemi_redir _ (by rw [redirOfBin_op]; rfl))
+  simp only [pExpr]
+  simpa [List.append_assoc] using h
+
+/-- tokens of the arguments after the first one when the last one is followed by the redirection -/
+def toksMoreR (op : BinOp) (o : Ast) : AstL → List Tok
+  | .nil => []
+  | .cons b .nil => tCOMMA :: (opnd b ++ binTok op :: opnd o)
+  | .cons b (.cons c t) => tCOMMA :: (opnd b ++ toksMoreR op o (.cons c t))
+
+/-- what parse_print's argument loop reads from them: the last argument and the target are one binary node -/
+def resR (op : BinOp) (o : Ast) : AstL → AstL
+  | .nil => .nil
+  | .cons b .nil => .cons (.bin op (norm b) (norm o)) .nil
+  | .cons b (.cons c t) => .cons (norm b) (resR op o (.cons c t))
+
+theorem toksMoreR_eq (op : BinOp) (o : Ast) : ∀ (l : AstL), l ≠ .nil → ∀ (Y : List Tok),
+    toksMore l ++ binTok op :: (opnd o ++ Y) = toksMoreR op o l ++ Y
+  | .nil, h, _ => absurd rfl h
+  | .cons b .nil, _, Y => by simp [toksMore, toksMoreR]
+  | .cons b (.cons c t), _, Y => by
+    have ih := toksMoreR_eq op o (.cons c t) (by simp) Y
+    simp only [toksMore, toksMoreR, List.cons_append, List.append_assoc] at ih ⊢
+    rw [ih]
+
+theorem printMore_redir (rd : Redir) (o : Ast) (hwo : WFparse o) : ∀ (l : AstL), l ≠ .nil → WFparseL l → ∀ (n : Nat) (rest : List Tok),
+    (toksMoreR (opOfRedir rd) o l ++ tSEMI :: rest).length + 1 ≤ n →
+    printMore n (toksMoreR (opOfRedir rd) o l ++ tSEMI :: rest) = .ok (resR (opOfRedir rd) o l, false, tSEMI :: rest)
+  | .nil, h, _, _, _, _ => absurd rfl h
+  | .cons b .nil, _, hw, n, rest, hn => by
+    obtain ⟨m, rfl⟩ : ∃ m, n = m + 2 := ⟨n - 2, by simp [toksMoreR] at hn; omega⟩
+    simp only [WFparseL] at hw
+    obtain ⟨t0, r0, e0, hk⟩ := opnd_head b hw.1
+    have he := pExpr_redir b o hw.1 hwo rd rest
+    have hd : dropNl (opnd b ++ binTok (opOfRedir rd) :: (opnd o ++ tSEMI :: rest)) = opnd b ++ binTok (opOfRedir rd) :: (opnd o ++ tSEMI :: rest) := by
+      rw [e0]; exact dropNl_ne _ _ (start_not_newline _ hk)
+    have hin := inParens_early b hw.1 (binTok (opOfRedir rd) :: opnd o) (by simp) (tSEMI :: rest)
+    simp only [List.cons_append, List.append_assoc] at hin
+    simp only [toksMoreR, resR, List.cons_append, List.append_assoc, printMore, tCOMMA_k, bne_self_eq_false, Bool.false_eq_true, if_false, hd, he,
+      tSEMI_k, hin]
+    simp
+  | .cons b (.cons c t), _, hw, n, rest, hn => by
+    obtain ⟨m, rfl⟩ : ∃ m, n = m + 1 := ⟨n - 1, by omega⟩
+    simp only [WFparseL] at hw
+    have ih := printMore_redir rd o hwo (.cons c t) (by simp) (by simp only [WFparseL]; exact hw.2) m rest (by simp [toksMoreR] at hn ⊢; omega)
+    obtain ⟨t0, r0, e0, hk⟩ := opnd_head b hw.1
+    have hc : ∃ r, toksMoreR (opOfRedir rd) o (.cons c t) ++ tSEMI :: rest = tCOMMA :: r := by
+      cases t <;> exact ⟨_, rfl⟩
+    obtain ⟨r, ec⟩ := hc
+    have he := pExpr_opnd b hw.1 tCOMMA r (by rw [tCOMMA_k]; exact stop_COMMA')
+    rw [← ec] at he
+    have hd : dropNl (opnd b ++ (toksMoreR (opOfRedir rd) o (.cons c t) ++ tSEMI :: rest)) = opnd b ++ (toksMoreR (opOfRedir rd) o (.cons c t) ++ tSEMI :: rest) := by
+      rw [e0]; exact dropNl_ne _ _ (start_not_newline _ hk)
+    have hres : ∃ x y, resR (opOfRedir rd) o (.cons c t) = .cons x y := by cases t <;> exact ⟨_, _, rfl⟩
+    obtain ⟨x, y, ex⟩ := hres
+    rw [show toksMoreR (opOfRedir rd) o (.cons b (.cons c t)) = tCOMMA :: (opnd b ++ toksMoreR (opOfRedir rd) o (.cons c t)) from rfl,
+      show resR (opOfRedir rd) o (.cons b (.cons c t)) = .cons (norm b) (resR (opOfRedir rd) o (.cons c t)) from rfl]
+    simp only [List.cons_append, List.append_assoc, printMore, tCOMMA_k, bne_self_eq_false, Bool.false_eq_true, if_false, hd, he, ih, ex]
+
+theorem splitLast_resR (rd : Redir) (o : Ast) : ∀ (l : AstL), l ≠ .nil →
+    splitLast (resR (opOfRedir rd) o l) = some (normL l, rd, norm o)
+  | .nil, h => absurd rfl h
+  | .cons b .nil, _ => by simp [resR, splitLast, redirOfBin_op, normL]
+  | .cons b (.cons c t), _ => by
+    have ih := splitLast_resR rd o (.cons c t) (by simp)
+    have hres : ∃ x y, resR (opOfRedir rd) o (.cons c t) = .cons x y := by cases t <;> exact ⟨_, _, rfl⟩
+    obtain ⟨x, y, ex⟩ := hres
+    rw [show resR (opOfRedir rd) o (.cons b (.cons c t)) = .cons (norm b) (resR (opOfRedir rd) o (.cons c t)) from rfl]
+    rw [ex] at ih ⊢
+    simp only [splitLast, ih]
+    simp [normL]
+
+theorem pp_args3 (f : Bool) (t0 : Tok) (r0 r1 r2 : List Tok) (a x : Ast) (l y : AstL) (gm : Bool) (rd : Redir) (o : Ast) (hk : t0.k ∈ startKs)
+    (he : pExpr (t0 :: r0) = .ok (a, r1))
+    (hm : (if isGrp a then Except.ok (AstL.nil, false, r1) else printMore (r1.length + 1) r1) = .ok (l, gm, tSEMI :: r2))
+    (hflag : (!inpFlag l (t0 :: r0) r1 && !gm) = true)
+    (hs : splitLast (.cons a l) = some (.cons x y, rd, o)) :
+    parsePrint f (t0 :: r0) = .ok (.prt f (.cons x y) (some (rd, o)), r2) := by
+  have h1 : isTermK t0.k = false := by simpa using start_all (fun k => !isTermK k) (by decide) _ hk
+  have h2 : redirOfTok t0.k = none := by
+    have := start_all (fun k => (redirOfTok k).isNone) (by decide) _ hk
+    simpa using this
+  have h3 : (t0.k == TK.LOR) = false := by simpa using start_all (fun k => !(k == TK.LOR)) (by decide) _ hk
+  simp only [parsePrint, h1, h2, h3, he, hm, hflag, hs]
+  simp [tSEMI_k, endStmt]
+
+theorem pp_print_redir (f : Bool) (a : Ast) (l : AstL) (hw : WFparseL (.cons a l)) (hg : grpAlone (.cons a l))
+    (rd : Redir) (o : Ast) (hwo : WFparse o) (rest : List Tok) :
+    parsePrint f (opnd a ++ (toksMore l ++ binTok (opOfRedir rd) :: (opnd o ++ tSEMI :: rest)))
+      = .ok (.prt f (.cons (norm a) (normL l)) (some (rd, norm o)), rest) := by
+  simp only [WFparseL] at hw
+  obtain ⟨t0, r0, e0, hk⟩ := opnd_head a hw.1
+  cases l with
+  | nil =>
+    have he := pExpr_redir a o hw.1 hwo rd rest
+    have hin := inParens_early a hw.1 (binTok (opOfRedir rd) :: opnd o) (by simp) (tSEMI :: rest)
+    simp only [toksMore, List.nil_append, List.cons_append, List.append_assoc, normL] at hin ⊢
+    rw [e0] at he hin ⊢
+    simp only [List.cons_append] at he hin ⊢
+    exact pp_args3 f t0 _ _ rest _ (norm a) .nil .nil false rd (norm o) hk he
+      (by simp [isGrp, printMore, tSEMI_k]) (by simp [inpFlag, hin]) (by simp [splitLast, redirOfBin_op])
+  | cons b t =>
+    have hgr : isGrp a = false := by cases a <;> simp_all [isGrp, grpAlone]
+    have eq := toksMoreR_eq (opOfRedir rd) o (.cons b t) (by simp) (tSEMI :: rest)
+    rw [eq]
+    have hc : ∃ r, toksMoreR (opOfRedir rd) o (.cons b t) ++ tSEMI :: rest = tCOMMA :: r := by cases t <;> exact ⟨_, rfl⟩
+    obtain ⟨r, ec⟩ := hc
+    have he := pExpr_opnd a hw.1 tCOMMA r (by rw [tCOMMA_k]; exact stop_COMMA')
+    rw [← ec] at he
+    have hm := printMore_redir rd o hwo (.cons b t) (by simp) hw.2 _ rest (Nat.le_refl _)
+    have hs := splitLast_resR rd o (.cons b t) (by simp)
+    have hres : ∃ x y, resR (opOfRedir rd) o (.cons b t) = .cons x y := by cases t <;> exact ⟨_, _, rfl⟩
+    obtain ⟨x, y, ex⟩ := hres
+    rw [e0] at he ⊢
+    simp only [List.cons_append] at he ⊢
+    refine pp_args3 f t0 _ _ rest (norm a) (norm a) (resR (opOfRedir rd) o (.cons b t)) (normL (.cons b t)) false rd (norm o) hk he
+      (by simp only [isGrp_norm, hgr, Bool.false_eq_true, if_false]; exact hm) (by rw [ex]; simp [inpFlag]) ?_
+    rw [ex] at hs ⊢
+    simp only [splitLast, hs]
+
+theorem pp_noargs_redir (rd : Redir) (o : Ast) (hwo : WFparse o) (rest : List Tok) :
+    parsePrint false (binTok (opOfRedir rd) :: (opnd o ++ tSEMI :: rest)) = .ok (.prt false .nil (some (rd, norm o)), rest) := by
+  have he := pExpr_opnd o hwo tSEMI rest (by rw [tSEMI_k]; exact stop_SEMI)
+  have h1 : isTermK (binTok (opOfRedir rd)).k = false := by cases rd <;> decide +kernel
+  have h2 : redirOfTok (binTok (opOfRedir rd)).k = some rd := by cases rd <;> decide +kernel
+  simp [parsePrint, h1, h2, he, tSEMI_k, endStmt]
+
+theorem rt_prt_redir (f : Bool) (args : AstL) (hw : WFparseL args) (hf : f = true → args ≠ .nil) (hg : grpAlone args)
+    (rd : Redir) (o : Ast) (hwo : WFparse o) : RT (.prt f args (some (rd, o))) := by
+  intro outer d n rest hn _
+  obtain ⟨m, rfl⟩ : ∃ m, n = m + 1 := ⟨n - 1, by simp [sz] at hn; omega⟩
+  refine ⟨nlTok :: rest, ?_, dropNl_nl rest⟩
+  cases args with
+  | nil =>
+    have hff : f = false := by
+      cases f with
+      | false => rfl
+      | true => exact absurd rfl (hf rfl)
+    subst hff
+    have hp := pp_noargs_redir rd o hwo (nlTok :: rest)
+    tk_simp
+    simp only [sym, toksS, toksS_append, toksS_opx, redir_sym, Bool.false_eq_true, if_false, normL, List.append_assoc, List.cons_append, List.nil_append]
+    rw [ps_print m outer _ _ rfl]; exact hp
+  | cons a l =>
+    have hp := pp_print_redir f a l hw hg rd o hwo (nlTok :: rest)
+    tk_simp
+    simp only [sym, toksS, toksS_append, toksS_opx, redir_sym, toks_argList, List.append_assoc, List.cons_append, List.nil_append, normL]
+    cases f
+    · simp only [Bool.false_eq_true, if_false]; rw [ps_print m outer _ _ rfl]; exact hp
+    · simp only [if_true]; rw [ps_printf m outer _ _ rfl]; exact hp
+
 /-! ### every statement tree -/
 
 mutual
@@ -1171,8 +1400,10 @@ theorem rtS : (s : Stmt) → WFS s → RT s
   | .reset v, h => by simp only [WFS] at h; obtain ⟨nm, rfl⟩ := h; exact rt_reset nm
   | .prt f args out, h => by
     simp only [WFS] at h
-    obtain ⟨h1, rfl, h3, h4⟩ := h
-    exact rt_prt f args h1 h3 h4
+    obtain ⟨h1, h3, h4, h5⟩ := h
+    cases out with
+    | none => exact rt_prt f args h1 h3 h4
+    | some p => obtain ⟨rd, o⟩ := p; exact rt_prt_redir f args h1 h3 h4 rd o h5
   | .expr e, h => by simp only [WFS] at h; exact rt_expr e h
 theorem rtSL : (l : StmtL) → WFSL l → RTL l
   | .nil, _ => rtl_nil
